@@ -39,6 +39,7 @@ type Feat struct {
 	Key   string     `json:"key"`
 	Loc   Loc        `json:"loc"`
 	Quals [][]string `json:"quals,omitempty"` // gts.Props layout: [name, value...]
+	Raw   bool       `json:"raw,omitempty"`   // build the location from literals (Joined{...}) instead of the constructors
 }
 
 func (f Feat) label() string {
@@ -59,6 +60,9 @@ func propsOf(q [][]string) gts.Props {
 }
 
 func (f Feat) toGts() gts.Feature {
+	if f.Raw {
+		return gts.NewFeature(f.Key, toGtsRaw(f.Loc), propsOf(f.Quals))
+	}
 	return gts.NewFeature(f.Key, toGts(f.Loc), propsOf(f.Quals))
 }
 
